@@ -1,10 +1,10 @@
 package props
 
 import (
-	"net"
 	"bytes"
 	"fmt"
 	"io"
+	"net"
 	"testing"
 	"time"
 
